@@ -73,11 +73,7 @@ Proof.
   unfold corr1, ok1. destruct (subject_err s given (o_subject o)) as [e|]; [|discriminate].
   unfold model_obs. intros H. apply andb_true_iff in H as [H Hh]. apply andb_true_iff in H as [H Hs].
   apply andb_true_iff in H as [He Hn]. rewrite Hs. cbn [andb].
-  assert (Ln : Nat.eqb (List.length (o_nodes o)) (List.length (unwrap_tree e)) = true).
-  { clear - Hn. revert Hn. generalize (o_nodes o) as l1. generalize (unwrap_tree e) as l2.
-    induction l2 as [|y r IH]; intros [|x l1] H; cbn in *; try discriminate; [reflexivity|].
-    apply andb_true_iff in H as [_ H]. now apply IH. }
-  rewrite Ln, andb_true_r. rewrite andb_true_r.
+  rewrite Hn, andb_true_r. rewrite andb_true_r.
   destruct (match e_def e with Some d => d_log d | None => None end) as [id|] eqn:El.
   - now rewrite (valuer_local e id El) in He.
   - unfold log_value in He. rewrite El in He.
